@@ -125,13 +125,17 @@ func (c *Cache) Copy(src, dest string) error {
 	var srcFS filesystem.Filespace
 	srcFS, src = c.srcFS(src)
 	dest = varutil.CleanPath(dest)
-	c.changeWrite(dest, true)
-	return (fshelper.Copier{
+	if err := (fshelper.Copier{
 		SrcFS:    srcFS,
 		SrcPath:  src,
 		DestFS:   c.bufferFS,
 		DestPath: dest,
-	}).Do()
+	}).Do(); err != nil {
+		return err
+	}
+	// journal only what happened: a refused copy must leave nothing for Commit
+	c.changeWrite(dest, true)
+	return nil
 }
 
 // CopyDirectory duplicate a directory
@@ -142,7 +146,6 @@ func (c *Cache) CopyDirectory(src, dest string) error {
 	if !srcFS.IsDir(src) {
 		return goaterr.Errorf("Source node must be a directory")
 	}
-	c.changeWrite(dest, true)
 	return c.Copy(src, dest)
 }
 
@@ -154,7 +157,6 @@ func (c *Cache) CopyFile(src, dest string) error {
 	if !srcFS.IsFile(src) {
 		return goaterr.Errorf("Source node must be a file")
 	}
-	c.changeWrite(dest, true)
 	return c.Copy(src, dest)
 }
 
@@ -204,15 +206,22 @@ func (c *Cache) IsDir(src string) bool {
 // MkdirAll create directory recursively
 func (c *Cache) MkdirAll(dest string, filemode os.FileMode) error {
 	dest = varutil.CleanPath(dest)
+	if err := c.bufferFS.MkdirAll(dest, filemode); err != nil {
+		return err
+	}
 	c.changeMkdirAll(dest, filemode)
-	return c.bufferFS.MkdirAll(dest, filemode)
+	return nil
 }
 
 // Writer return a file node writer
 func (c *Cache) Writer(dest string) (filesystem.Writer, error) {
 	dest = varutil.CleanPath(dest)
+	writer, err := c.bufferFS.Writer(dest)
+	if err != nil {
+		return nil, err
+	}
 	c.changeWrite(dest, true)
-	return c.bufferFS.Writer(dest)
+	return writer, nil
 }
 
 // Reader return a file node reader
@@ -231,8 +240,12 @@ func (c *Cache) ReadFile(src string) ([]byte, error) {
 
 // WriteFile write file data
 func (c *Cache) WriteFile(dest string, data []byte, perm os.FileMode) error {
+	dest = varutil.CleanPath(dest)
+	if err := c.bufferFS.WriteFile(dest, data, perm); err != nil {
+		return err
+	}
 	c.changeWrite(dest, true)
-	return c.bufferFS.WriteFile(dest, data, perm)
+	return nil
 }
 
 // Filespace get directory node and return it as filespace
